@@ -27,11 +27,23 @@ func pbool(b bool) *bool    { return &b }
 
 // idCounter hands out ids that are unique within a file so that a swapped or duplicated
 // element is always visible.
-type idCounter struct{ n int64 }
+type idCounter struct{ n, w, rel int64 }
 
 func (c *idCounter) next(r *gen.R) int64 {
 	c.n += int64(r.Range(1, 50))
 	return c.n
+}
+
+// nextWay / nextRel: ids are unique within a kind only, as in OSM itself: node 7, way 7 and
+// relation 7 are three different elements that happen to share a number.
+func (c *idCounter) nextWay(r *gen.R) int64 {
+	c.w += int64(r.Range(1, 50))
+	return c.w
+}
+
+func (c *idCounter) nextRel(r *gen.R) int64 {
+	c.rel += int64(r.Range(1, 50))
+	return c.rel
 }
 
 // genUID: contributors recur across blocks; a small pool makes the same uid show up with
@@ -237,7 +249,7 @@ func GenGroup(r *gen.R, b *Block, kind, n int, ids *idCounter, o GenOpts) *Group
 		g.Dense = d
 	case KWays:
 		for i := 0; i < n; i++ {
-			w := &Way{ID: ids.next(r)}
+			w := &Way{ID: ids.nextWay(r)}
 			w.Info = genInfo(r, b, o)
 			if o.Plain || o.Full || r.Chance(0.8) {
 				w.HasTags = true
@@ -279,7 +291,7 @@ func GenGroup(r *gen.R, b *Block, kind, n int, ids *idCounter, o GenOpts) *Group
 		}
 	case KRelations:
 		for i := 0; i < n; i++ {
-			rel := &Relation{ID: ids.next(r)}
+			rel := &Relation{ID: ids.nextRel(r)}
 			rel.Info = genInfo(r, b, o)
 			if o.Plain || o.Full || r.Chance(0.8) {
 				rel.HasTags = true
@@ -490,9 +502,13 @@ func (b *Block) NumObjects() int {
 
 // GenGroupIDs is GenGroup with the id counter held by the caller.
 func GenGroupIDs(r *gen.R, b *Block, kind, n int, counter *int64, o GenOpts) *Group {
-	c := &idCounter{n: *counter}
+	c := &idCounter{n: *counter, w: *counter, rel: *counter}
 	g := GenGroup(r, b, kind, n, c, o)
-	*counter = c.n
+	for _, v := range []int64{c.n, c.w, c.rel} {
+		if v > *counter {
+			*counter = v
+		}
+	}
 	return g
 }
 
